@@ -39,6 +39,15 @@ type genOpts struct {
 	// be true, so several tokens leave it; to stay inside well-defined token semantics the branches contain
 	// only tasks / sequences / exclusive blocks and lead straight to the end event.
 	tailCtask bool
+	// inlineSubs: generate the same program but with every embedded sub-process replaced by its content
+	inlineSubs bool
+	// sortedAnswers: choose among pending requests in node-name order, so that two runs of the same program
+	// modulo sub-process wrapping answer in the same order
+	sortedAnswers bool
+	// subLevels: wrap each `sub` block in this many nested sub-processes (1..3)
+	subLevels int
+	// noFrame / noStop: the caller frames the case itself and keeps the instance alive (paired runs)
+	noFrame, noStop bool
 }
 
 func genOptsC01(idx int, tier string) genOpts {
@@ -166,9 +175,24 @@ func (ge *gen) block(parent string, depth int) eng.Frag {
 		return ge.g.Loop(parent, body, &eng.Cond{Op: "lt", Var: cv, K: 1 + ge.rng.Intn(3)})
 	case "sub":
 		ge.budget -= 3
-		sub := ge.g.SubBegin(parent)
-		inner := ge.block(sub.ID, depth+1)
-		return ge.g.SubEnd(sub, inner)
+		levels := 1
+		if ge.o.subLevels > 1 {
+			levels = 1 + ge.rng.Intn(ge.o.subLevels)
+		}
+		if ge.o.inlineSubs {
+			return ge.block(parent, depth+1)
+		}
+		subs := make([]*eng.Node, levels)
+		par := parent
+		for i := 0; i < levels; i++ {
+			subs[i] = ge.g.SubBegin(par)
+			par = subs[i].ID
+		}
+		fr := ge.block(par, depth+1)
+		for i := levels - 1; i >= 0; i-- {
+			fr = ge.g.SubEnd(subs[i], fr)
+		}
+		return fr
 	}
 	return ge.task(parent)
 }
@@ -244,8 +268,10 @@ func fmtVars(m map[string]int) string {
 func runGraphCase(out *rec.Out, fam string, g *eng.Graph, vars map[string]any, varsInt map[string]int,
 	rng *rec.Rng, stats map[string]int, loopTask map[string]string, o genOpts) {
 	xmlText := g.XML()
-	out.Begin(fam)
-	defer out.End()
+	if !o.noFrame {
+		out.Begin(fam)
+		defer out.End()
+	}
 	in, defs, err := eng.Start(xmlText, vars)
 	if err != nil {
 		out.Line("harness-error %v", err)
@@ -269,6 +295,14 @@ func runGraphCase(out *rec.Out, fam string, g *eng.Graph, vars map[string]any, v
 		p := in.Pending()
 		if len(p) == 0 {
 			break
+		}
+		if o.sortedAnswers {
+			sort.Slice(p, func(a, b int) bool {
+				if p[a].Node != p[b].Node {
+					return p[a].Node < p[b].Node
+				}
+				return p[a].Occ < p[b].Occ
+			})
 		}
 		q := p[rng.Intn(len(p))]
 		res := map[string]int{}
@@ -297,9 +331,11 @@ func runGraphCase(out *rec.Out, fam string, g *eng.Graph, vars map[string]any, v
 		out.Line("%s", l)
 	}
 	out.Line("obs final complete=%d vars=%s", rec.B(complete), in.Vars())
-	stopped := in.Stop(2 * time.Second)
-	if !stopped {
-		stats["tracer_not_done_after_cancel"]++
+	if !o.noStop {
+		stopped := in.Stop(2 * time.Second)
+		if !stopped {
+			stats["tracer_not_done_after_cancel"]++
+		}
 	}
 	if complete {
 		stats["completed"]++
